@@ -72,6 +72,7 @@ class Oracle(object):
         self.join_ctx = {}  # (join, instance) -> merged ctx
         self.fired = {n: 0 for n in self.joins}
         self.fired_i = {}
+        self.split_fired = {}
         self.splits = {n for n in wf.tasks if not wf.is_join(n) and len(self._inbound_edges(n)) > 1 and not self._in_cycle(n)}
         self.failed = False
         self.fail_reasons = []
@@ -151,6 +152,9 @@ class Oracle(object):
                     var, tok = p, tokens[(k, p)]
                 elif p[1] == "inc":
                     var, tok = p[0], published[p[0]].tok + 1
+                elif isinstance(p[1], tuple) and p[1][0] == "copy":
+                    # reads another variable of the context this transition is evaluated against
+                    var, tok = p[0], published[p[1][1]].tok
                 else:
                     var, tok = p[0], p[1][1]
                 old = published.get(var)
@@ -182,7 +186,14 @@ class Oracle(object):
                         due.append(Due(tgt, dict(acc), "barrier of %s satisfied by %s" % (tgt, task), inst))
                 else:
                     handled = True
-                    ninst = inst + ((task, k),) if tgt in self.splits else inst
+                    ninst = inst
+                    if tgt in self.splits:
+                        # every firing of a transition into a split task opens its own instance: a task
+                        # inside a loop that transitions out of the loop on every iteration starts the
+                        # split task (and everything downstream) once per iteration
+                        n = self.split_fired.get((task, k, inst), 0)
+                        self.split_fired[(task, k, inst)] = n + 1
+                        ninst = inst + (((task, k) if n == 0 else (task, k, n)),)
                     d = Due(tgt, dict(published), "%s transition %d" % (task, k), ninst)
                     due.append(d)
                     if beside_fail:
